@@ -64,13 +64,14 @@ func main() {
 	debug.SetGCPercent(400)
 	debug.SetMemoryLimit(12 << 30) // soft limit: the collector works harder instead of letting the heap grow fivefold
 	cfg := &Config{}
-	var files, stubs stringList
+	var files, stubs, xfiles stringList
 	var out string
 	var timeLimit string
 	flag.StringVar(&cfg.Dir, "dir", "/repo", "module directory")
 	flag.StringVar(&cfg.Pkg, "pkg", "", "package under test")
 	flag.StringVar(&cfg.Harness, "harness", "", "harness function name")
 	flag.Var(&files, "file", "harness source file (repeatable)")
+	flag.Var(&xfiles, "xfile", "importpath=file: overlay a file into another package (export shims; repeatable)")
 	flag.Var(&stubs, "stub", "function substitution real=harnessFunc (repeatable)")
 	flag.IntVar(&cfg.Workers, "workers", 16, "parallel workers")
 	flag.Int64Var(&cfg.MaxSteps, "maxsteps", 20000000, "instruction budget per path")
@@ -85,17 +86,33 @@ func main() {
 	flag.BoolVar(&cfg.Domain, "domain", false, "decide single-byte-variable branches by exact domain enumeration before asking the solver")
 	flag.BoolVar(&cfg.MapPerm, "mapperm", false, "explore map iteration orders")
 	flag.StringVar(&timeLimit, "timelimit", "", "wall-clock limit (e.g. 10m)")
+	var initAllow string
+	flag.StringVar(&initAllow, "initallow", "", "comma-separated package paths whose initialisers are run in addition to the built-in list")
 	flag.StringVar(&out, "out", "", "result JSON path")
 	var cpuprof string
 	flag.StringVar(&smtLogPath, "smtlog", "", "log SMT input of worker 0 to this file")
 	flag.StringVar(&cpuprof, "cpuprofile", "", "write CPU profile")
 	flag.Parse()
+	for _, p := range strings.Split(initAllow, ",") {
+		if p = strings.TrimSpace(p); p != "" {
+			initAllowExtra[p] = true
+		}
+	}
 	if cpuprof != "" {
 		pf, _ := os.Create(cpuprof)
 		pprof.StartCPUProfile(pf)
 		defer pprof.StopCPUProfile()
 	}
 	cfg.Files = files
+	cfg.XFiles = map[string][]string{}
+	for _, x := range xfiles {
+		k, v, ok := strings.Cut(x, "=")
+		if !ok {
+			fmt.Fprintln(os.Stderr, "bad -xfile", x)
+			os.Exit(2)
+		}
+		cfg.XFiles[k] = append(cfg.XFiles[k], v)
+	}
 	cfg.Stubs = map[string]string{}
 	for _, s := range stubs {
 		k, v, ok := strings.Cut(s, "=")
